@@ -414,6 +414,46 @@ def tautologies(ctx, F):
     site = 'AffFuncBase::remove_tautologies#closure'
     clos = [cb for cb in b.closure_bodies() if cb.parent == b.path]
     loop_done = False
+    # two passes over the rows: `rows.find(|row| <infeasible constant row>)` (or any / position) decides "empty", a second pass filters the
+    # rows that stay.  Both closures get their truth table over the six abstract (all-zero?, sign of bias) cases.
+    R2 = Resolver(b)
+    searches = [(bb, R2.call_args(bb)) for bb, t in b.calls() if Callee(t['func']).name in ('find', 'any', 'position') and Callee(t['func']).trait == 'Iterator'
+                and len(R2.call_args(bb)) == 2 and R2.call_args(bb)[1][0] == 'closure']
+    filters = [(bb, R2.call_args(bb)) for bb, t in b.calls() if Callee(t['func']).name == 'filter' and Callee(t['func']).trait == 'Iterator'
+               and len(R2.call_args(bb)) == 2 and R2.call_args(bb)[1][0] == 'closure']
+    if len(searches) == 1 and len(filters) == 1 and not list(b.calls_to('Iterator::filter_map')):
+        def rows_src(e):
+            return is_call(e, 'zip', 'Iterator::zip') and is_call(e[2][0], 'ArrayBase::axis_iter', 'ArrayBase::outer_iter', 'ArrayBase::rows') and \
+                e[2][0][2][0] == ('field', ('param', 'self'), 'mat') and any(x == ('field', ('param', 'self'), 'bias') for x in walk(e[2][1]))
+        try:
+            pe = truth_table(F, F.closure(searches[0][1][1][1]))
+            kp = truth_table(F, F.closure(filters[0][1][1][1]))
+        except Unknown as e:
+            ctx.undecided('C15.R3', site, 'a row test leaves the (all-zero?, sign of bias) domain: %s' % e, b.span)
+            return
+        problems = []
+        if not (rows_src(searches[0][1][0]) and rows_src(filters[0][1][0])):
+            problems.append('the two passes do not both run over zip(rows of self.mat, self.bias)')
+        # `empty` is returned exactly when the search succeeded
+        e_ = [(bb, literals(b, R2, bb)) for bb, t in b.calls_to('AffFuncBase::empty')]
+        found = lambda l: (l[0] == 'is' and l[2] == frozenset(['Some']) and s(l[1]) == s(('call', 'Iterator::' + Callee(b.blocks[searches[0][0]]['term']['func']).name, tuple(searches[0][1])))) or \
+            (l[0] == 'true' and is_call(l[1], 'Iterator::any') and s(l[1][2]) == s(tuple(searches[0][1])))
+        if len(e_) != 1 or not any(found(l) for l in e_[0][1]):
+            problems.append('the canonical empty polytope is not returned exactly when the search for an infeasible row succeeds')
+        for (allzero, sign) in pe:
+            if pe[(allzero, sign)] is True and not (allzero and sign < 0):
+                problems.append('a row that is not "all-zero with negative bias" (%s, bias %s 0) makes the polytope empty' % ('all-zero' if allzero else 'non-zero', '<' if sign < 0 else ('=' if sign == 0 else '>')))
+            if not allzero and kp[(allzero, sign)] is not True:
+                problems.append('a row with a non-zero coefficient is not kept')
+            if allzero and sign < 0 and pe[(allzero, sign)] is not True and kp[(allzero, sign)] is not True:
+                problems.append('an all-zero row with negative bias (infeasible) is dropped instead of emptying the polytope')
+        if problems:
+            for p_ in sorted(set(problems)):
+                ctx.bad('C15.R3', site, p_, b.span)
+        else:
+            ctx.ok('C15.R3', site, 'two passes: empty iff some all-zero row has negative bias; rows with a non-zero coefficient kept (truth tables of both row tests over 6 abstract cases)', b.span)
+            ctx.ok('C15.R3', 'AffFuncBase::remove_tautologies#empty', 'canonical empty only when the search found an infeasible row', b.span)
+        return
     if len(clos) != 1:
         # the same decision written as a loop: push = keep, continue = drop, `return empty(..)` = the whole polytope is empty
         from ..absint import loop_truth_table
